@@ -397,7 +397,10 @@ fn evaluate_boolean(
                 || current_index >= current_end_index
             {
                 if current_op == Not {
-                    ret = false;
+                    // `ret` is the value of the nested expression that just ended. Inside a
+                    // `not` it counts negated: true makes the `not` false (short-circuit), and
+                    // a false last item leaves the `not` true.
+                    ret = !ret;
                 }
                 current_index = current_end_index;
                 continue;
